@@ -22,8 +22,14 @@ def badList : Sexp → Option (List Str)
   | .list xs => xs.mapM fun x => (x.str?).map String.toList
   | _ => none
 
+/-- type names that the contexts of the harness do NOT define (harness contract: the generators use these and only these
+    as unknown names; every other non-core name may be loadable — `My::Pt`, `Pcore::AnyType`, `Deferred` … — and is answered
+    `unmodelled`) -/
+def unknownNames : List Str :=
+  ["Foo", "Bar", "My::Thing", "My::Other", "Catalogentry", "A::B", "Foo::Bar", "X", "Y", "Z", "W", "Ref"].map String.toList
+
 def mkEnv (bad : List Str) : Env :=
-  { isLetter := isLetter, rxOK := fun s => !bad.contains s, pf := parseFloat }
+  { isLetter := isLetter, rxOK := fun s => !bad.contains s, pf := parseFloat, unknown := fun n => unknownNames.contains n }
 
 /-- the float-text oracle of an op line: `((BITS xTEXT) …)` — what the implementation prints for the float with these bits -/
 def floatTable : Sexp → Option (List (Nat × Str))
